@@ -133,7 +133,8 @@ def decode_both(data: bytes, a, acc_count):
                     try:
                         if len(data) > 2 and (len(data) % 3):
                             # two pieces: cut inside the first header octets, or anywhere
-                            cut = (1 + (len(data) * 7) % min(7, len(data) - 1)) if len(data) % 3 == 1 else max(1, (len(data) * 5) % len(data))
+                            hsh = (sum(data[:24]) * 31 + len(data) * 7 + data[-1]) & 0xFFFF
+                            cut = (1 + hsh % min(8, len(data) - 1)) if len(data) % 3 == 1 else (1 + hsh % (len(data) - 1))
                             ms = sess.receive(data[:cut])
                             ms = ms + sess.receive(data[cut:])
                             acc_count("via:receive-two-pieces")
@@ -246,7 +247,18 @@ def rfc_only(m):
     return m
 
 
+class StopShard(Exception):
+    pass
+
+
 def run_shard(ctx: Ctx, acc: Acc):
+    try:
+        _run_shard(ctx, acc)
+    except StopShard:
+        acc.count("shard-stopped-early-after-hangs")
+
+
+def _run_shard(ctx: Ctx, acc: Acc):
     n = ctx.scale(60_000, 1_500_000)
     prof = gv.THOROUGH if ctx.thorough else gv.QUICK
 
@@ -259,6 +271,10 @@ def run_shard(ctx: Ctx, acc: Acc):
             acc.nontrivial(data)
         for key, what in res:
             acc.violation(key, what, {"message": a, "mode": list(mode), "rseed": rseed, "encoding": data})
+            if key.startswith("alt-no-return"):
+                acc.count("no-return")
+        if acc.counters.get("no-return", 0) >= 3:
+            raise StopShard()
         return data
 
     # random part
